@@ -528,9 +528,9 @@ Definition tf_case_mismatch (c : tf_case) : bool :=
 
 (* the property on the observations alone: an ideal editor over the clusters (rune lists)
    is run next to the observations *)
-Definition tf_iop (o : tf_op) (ins : list cluster) : iop text :=
+Definition tf_iop_of (o : tf_op) (ins : list text) : iop text :=
   match o with
-  | TText _ | TInsertApi _ => IIns (map fst ins)
+  | TText _ | TInsertApi _ => IIns ins
   | TKey TkHome => IHome | TKey TkEnd => IEnd | TKey TkRight => IRight | TKey TkLeft => ILeft
   | TKey TkDelete | TDeleteRightApi => IDel
   | TKey TkBackspace | TDeleteLeftApi => IBack
@@ -538,8 +538,12 @@ Definition tf_iop (o : tf_op) (ins : list cluster) : iop text :=
   | TKey TkEnter | TResetApi => IReset
   | TIgnored => INop
   | TCursorToApi i => IGoto i
-  | TSetValue _ => ISet (map fst ins)
+  | TSetValue _ => ISet ins
   end.
+Definition tf_iop (o : tf_op) (ins : list cluster) : iop text := tf_iop_of o (map fst ins).
+(* the same with the inserted text segmented by an oracle (used by the theorems) *)
+Definition tf_abs (seg : text -> option (list text)) (o : tf_op) : iop text :=
+  tf_iop_of o (match seg (tf_op_text o) with Some ks => ks | None => [] end).
 
 Definition tf_is_event (o : tf_op) : bool :=
   match o with TText _ | TKey _ | TIgnored => true | _ => false end.
@@ -618,6 +622,31 @@ Definition ti_iop (o : ti_op) (tbl : otable) : iop cluster :=
   | OEv (EKey IkKillWord) => IKillWordB
   | OSetContent _ => ISet (match tbl with (_, cs) :: _ => cs | [] => [] end)
   | _ => INop
+  end.
+
+(* the ideal operations a history of textinput operations stands for (used by the
+   theorems): a bracketed paste is one insertion, at its end, of the clusters of the
+   concatenated chunks *)
+Definition chars_or_nil (chars : text -> option (list cluster)) (t : text) : list cluster :=
+  match chars t with Some cs => cs | None => [] end.
+Definition ti_abs1 (chars : text -> option (list cluster)) (o : ti_op) : iop cluster :=
+  match o with
+  | OEv (EDefault false s) => IIns (chars_or_nil chars s)
+  | OEv (EKey IkHome) => IHome | OEv (EKey IkEnd) => IEnd
+  | OEv (EKey IkRight) => IRight | OEv (EKey IkLeft) => ILeft
+  | OEv (EKey IkWordF) => IWordF | OEv (EKey IkWordB) => IWordB
+  | OEv (EKey IkDelete) => IDel | OEv (EKey IkBackspace) => IBack
+  | OEv (EKey IkKillEnd) => IKillEnd | OEv (EKey IkKillStart) => IKillStart
+  | OEv (EKey IkKillWord) => IKillWordB
+  | OSetContent s => ISet (chars_or_nil chars s)
+  | _ => INop
+  end.
+Fixpoint ti_abs (chars : text -> option (list cluster)) (paste : text) (os : list ti_op) : list (iop cluster) :=
+  match os with
+  | [] => []
+  | OEv (EPasteChunk s) :: r => INop :: ti_abs chars (paste ++ s) r
+  | OEv EPasteEnd :: r => IIns (chars_or_nil chars paste) :: ti_abs chars [] r
+  | o :: r => ti_abs1 chars o :: ti_abs chars paste r
   end.
 
 (* Draw on observations: it returns; and when no earlier Draw has scrolled (offset 0
